@@ -185,4 +185,128 @@ theorem set_set_getD (s : List Nat) (k m : Nat) (h : k < s.length) : (s.set k m)
   · subst hik; simp [List.getD, h]
   · simp [hik]
 
+/-! ### the lifting obligation and its proof for the reference semantics -/
+
+/-- an `apply_along_axis` through which a lane-wise inverse pair `(f, g)` — `f` sends every lane of length
+`shape[k]` to a 1-D array of one common length `m > 0`, `g` sends that back — lifts to an array-wise inverse pair;
+rank and non-emptiness are kept so that the second call sees the same axis.  (The obligation on the axis
+machinery: the shared axis model discharges it for the crate's pipeline, `alongRef_lifts` for `alongRef`.) -/
+def AlongLifts (along : Along) (a : Arr Nat) (k : Nat) : Prop :=
+  ∀ (f g : Arr Nat → Res (Arr Nat)) (m : Nat), 0 < m →
+    (∀ l : List Nat, l.length = a.shape.getD k 0 → (∀ b ∈ l, b ∈ a.elems) →
+        ∃ r : List Nat, r.length = m ∧ f (Arr.flat l) = .ok (Arr.flat r) ∧ g (Arr.flat r) = .ok (Arr.flat l)) →
+    ∃ u, along a k f = .ok u ∧ u.ndim = a.ndim ∧ u.isEmpty = false ∧ along u k g = .ok a
+
+theorem map_elems_flat (L : List (List Nat)) : (L.map Arr.flat).map (·.elems) = L := by
+  simp [List.map_map, Function.comp_def, Arr.flat]
+
+theorem alongRef_lifts (a : Arr Nat) (k : Nat) (hwf : a.WF) (hk : k < a.ndim) (hne : a.isEmpty = false) :
+    AlongLifts alongRef a k := by
+  intro f g m hm hfg
+  have hk' : k < a.shape.length := hk
+  obtain ⟨O, hOdef⟩ : ∃ O, (a.shape.take k).prod = O := ⟨_, rfl⟩
+  obtain ⟨n, hndef⟩ : ∃ n, a.shape.getD k 0 = n := ⟨_, rfl⟩
+  obtain ⟨I, hIdef⟩ : ∃ I, (a.shape.drop (k + 1)).prod = I := ⟨_, rfl⟩
+  have hlen : a.elems.length = O * n * I := by
+    rw [hwf, prod_split a.shape k hk', hOdef, hndef, hIdef]
+  have hpos : O * n * I ≠ 0 := by
+    rw [← hlen]; simpa [Arr.isEmpty] using hne
+  have hO : 0 < O := Nat.pos_of_ne_zero (fun h => hpos (by simp [h]))
+  have hn : 0 < n := Nat.pos_of_ne_zero (fun h => hpos (by simp [h]))
+  have hI : 0 < I := Nat.pos_of_ne_zero (fun h => hpos (by simp [h]))
+  have hOI : 0 < O * I := Nat.mul_pos hO hI
+  rw [hndef] at hfg
+  -- first pass: every lane through `f`
+  obtain ⟨rs, hrs, hrel⟩ := mapM'_forall2 (fun l => f (Arr.flat l))
+    (fun l r => ∃ r' : List Nat, r = Arr.flat r' ∧ r'.length = m ∧ g (Arr.flat r') = .ok (Arr.flat l))
+    (lanes a.elems O n I) (by
+      intro l hl
+      obtain ⟨r, hr1, hr2, hr3⟩ := hfg l (mem_lanes_length _ _ _ _ l hl) (mem_lanes_mem _ _ _ _ hI hlen l hl)
+      exact ⟨Arr.flat r, hr2, r, rfl, hr1, hr3⟩)
+  have hrslen : rs.length = O * I := by rw [hrel.length_eq, lanes_length]
+  have hrs_m : ∀ r ∈ rs, r.elems.length = m := by
+    intro r hr
+    obtain ⟨l, _, r', rfl, hr', _⟩ := hrel.mem_right r hr
+    simpa [Arr.flat] using hr'
+  have hls_len : (rs.map (·.elems)).length = O * I := by simpa using hrslen
+  have hls_m : ∀ l ∈ rs.map (·.elems), l.length = m := by
+    intro l hl
+    obtain ⟨r, hr, rfl⟩ := List.mem_map.1 hl
+    exact hrs_m r hr
+  have hback : Res.mapM' (fun l => g (Arr.flat l)) (rs.map (·.elems)) = .ok ((lanes a.elems O n I).map Arr.flat) := by
+    rw [mapM'_map]
+    apply Forall2.mapM'_back
+    apply hrel.imp
+    rintro l r ⟨r', rfl, _, hg⟩
+    simpa [Arr.flat] using hg
+  cases rs with
+  | nil => simp at hrslen; omega
+  | cons r0 rs' =>
+    have hr0 : r0.elems.length = m := hrs_m r0 (by simp)
+    refine ⟨⟨unlanes ((r0 :: rs').map (·.elems)) O m I, a.shape.set k m⟩, ?_, ?_, ?_, ?_⟩
+    · unfold alongRef
+      rw [if_neg (by omega)]
+      simp only [hOdef, hndef, hIdef, hrs, Res.bind_ok, hr0]
+    · simp [Arr.ndim]
+    · have : O * m * I ≠ 0 := Nat.mul_ne_zero (Nat.mul_ne_zero (by omega) (by omega)) (by omega)
+      simpa [Arr.isEmpty, unlanes_length] using this
+    · unfold alongRef
+      have hk2 : ¬ (k ≥ (⟨unlanes ((r0 :: rs').map (·.elems)) O m I, a.shape.set k m⟩ : Arr Nat).ndim) := by
+        simp [Arr.ndim]; omega
+      rw [if_neg hk2]
+      simp only [take_set_self, getD_set_self _ _ _ hk', drop_set_succ, hOdef, hIdef,
+        lanes_unlanes _ O m I hI hls_len hls_m, hback, Res.bind_ok]
+      cases hL : lanes a.elems O n I with
+      | nil =>
+        have := lanes_length a.elems O n I
+        rw [hL] at this; simp at this; omega
+      | cons l0 L' =>
+        have hl0 : l0.length = n := mem_lanes_length a.elems O n I l0 (by rw [hL]; simp)
+        simp only [List.map_cons]
+        have h1 : (Arr.flat l0).elems.length = n := by simpa [Arr.flat] using hl0
+        simp only [h1]
+        have h2 : (Arr.flat l0).elems :: List.map (fun x => x.elems) (List.map Arr.flat L') = lanes a.elems O n I := by
+          rw [hL, map_elems_flat]; rfl
+        rw [h2, unlanes_lanes a.elems O n I hn hI hlen]
+        have h3 : (a.shape.set k m).set k n = a.shape := by rw [← hndef]; exact set_set_getD a.shape k m hk'
+        rw [h3]
+
+theorem mapM'_ok_map {α β} (f : α → Res β) (h : α → β) : ∀ xs : List α, (∀ x ∈ xs, f x = .ok (h x)) →
+    Res.mapM' f xs = .ok (xs.map h)
+  | [], _ => rfl
+  | x :: xs, hx => by
+    rw [mapM'_cons, hx x (by simp), mapM'_ok_map f h xs (fun y hy => hx y (by simp [hy]))]; rfl
+
+/-- explicit value of `alongRef` for a lane function that returns 1-D arrays of one common length -/
+theorem alongRef_ok (a : Arr Nat) (k : Nat) (hwf : a.WF) (hk : k < a.ndim) (hne : a.isEmpty = false)
+    (f : Arr Nat → Res (Arr Nat)) (h : List Nat → List Nat) (m : Nat)
+    (hf : ∀ l : List Nat, l.length = a.shape.getD k 0 → f (Arr.flat l) = .ok (Arr.flat (h l)) ∧ (h l).length = m) :
+    alongRef a k f = .ok ⟨unlanes ((lanes a.elems (a.shape.take k).prod (a.shape.getD k 0) (a.shape.drop (k + 1)).prod).map h)
+      (a.shape.take k).prod m (a.shape.drop (k + 1)).prod, a.shape.set k m⟩ := by
+  have hk' : k < a.shape.length := hk
+  have hlen : a.elems.length = (a.shape.take k).prod * a.shape.getD k 0 * (a.shape.drop (k + 1)).prod := by
+    rw [hwf]; exact prod_split a.shape k hk'
+  have hpos : (a.shape.take k).prod * a.shape.getD k 0 * (a.shape.drop (k + 1)).prod ≠ 0 := by
+    rw [← hlen]; simpa [Arr.isEmpty] using hne
+  have hO : (a.shape.take k).prod ≠ 0 := fun h0 => hpos (by simp [h0])
+  have hI : (a.shape.drop (k + 1)).prod ≠ 0 := fun h0 => hpos (by simp [h0])
+  unfold alongRef
+  rw [if_neg (by omega)]
+  simp only
+  rw [mapM'_ok_map (fun l => f (Arr.flat l)) (fun l => Arr.flat (h l)) _
+    (fun l hl => (hf l (mem_lanes_length _ _ _ _ l hl)).1)]
+  simp only [Res.bind_ok]
+  cases hL : lanes a.elems (a.shape.take k).prod (a.shape.getD k 0) (a.shape.drop (k + 1)).prod with
+  | nil =>
+    have := lanes_length a.elems (a.shape.take k).prod (a.shape.getD k 0) (a.shape.drop (k + 1)).prod
+    rw [hL] at this
+    exact absurd this.symm (Nat.mul_ne_zero hO hI)
+  | cons l0 L' =>
+    have hl0 : l0.length = a.shape.getD k 0 := mem_lanes_length a.elems _ _ _ l0 (by rw [hL]; simp)
+    simp only [List.map_cons]
+    have h1 : (Arr.flat (h l0)).elems.length = m := by simpa [Arr.flat] using (hf l0 hl0).2
+    simp only [h1]
+    congr 2
+    simp [List.map_map, Function.comp_def, Arr.flat]
+
 end ArrModel.C19
